@@ -7578,7 +7578,11 @@ bool CallasDonnerhackeFinneyShawThayerRFC4880::DashEscapeFile
 	char line[19995]; // we use the constant from GnuPG for maximum line chars
 	while (ifs.getline(line, sizeof(line)))
 	{
-		std::string line_str(line);
+		// the line may contain NUL octets: take its length from the stream
+		std::streamsize line_cnt = ifs.gcount();
+		if (!ifs.eof() && (line_cnt > 0))
+			line_cnt--; // the extracted delimiter is counted, not stored
+		std::string line_str(line, line_cnt);
 		if ((line_str.find("-") == 0) || (line_str.find("From ") == 0))
 			line_str = "- " + line_str;
 		size_t line_len = line_str.length();
@@ -7854,7 +7858,11 @@ bool CallasDonnerhackeFinneyShawThayerRFC4880::HashComputeFile
 		char line[19995]; // constant from GnuPG for maximum chars of a line
 		while (ifs.getline(line, sizeof(line)))
 		{
-			std::string line_str(line);
+			// the line may contain NUL octets: take its length from the stream
+			std::streamsize line_cnt = ifs.gcount();
+			if (!ifs.eof() && (line_cnt > 0))
+				line_cnt--; // the extracted delimiter is counted, not stored
+			std::string line_str(line, line_cnt);
 			size_t line_len = line_str.length();
 			while ((line_len > 0) && (line_str[line_len-1] == '\r'))
 			{
